@@ -318,7 +318,7 @@ Definition R_tar_rdevminor_size : nat := 8.
 Definition R_tar_prefix_offset : nat := 345.
 Definition R_tar_prefix_size : nat := 155.
 Definition R_tar_header_size : nat := 500.
-Definition GNUTAR_header_first : bool := false.
+Definition GNUTAR_header_first : bool := true.
 Definition ustar_template : list Z := [
   0; 0; 0; 0; 0; 0; 0; 0; 0; 0; 0; 0; 0; 0; 0; 0; 0; 0; 0; 0; 0; 0; 0; 0; 0; 0; 0; 0; 0; 0; 0; 0;
   0; 0; 0; 0; 0; 0; 0; 0; 0; 0; 0; 0; 0; 0; 0; 0; 0; 0; 0; 0; 0; 0; 0; 0; 0; 0; 0; 0; 0; 0; 0; 0;
